@@ -282,3 +282,32 @@ impl<R> From<R> for Reader<R> {
         Self { inner }
     }
 }
+
+/// Reads exactly `len` bytes into the given buffer.
+///
+/// This is used when the length is read from the input. Unlike resizing the buffer and filling it
+/// using [`AsyncReadExt::read_exact`], the buffer grows as data is read, i.e., a length that is
+/// larger than the rest of the input does not allocate (and clear) a buffer of that length.
+pub(crate) async fn read_exact_to_vec<R>(
+    reader: &mut R,
+    buf: &mut Vec<u8>,
+    len: usize,
+) -> io::Result<()>
+where
+    R: AsyncRead + Unpin,
+{
+    use tokio::io::AsyncReadExt;
+
+    let limit = u64::try_from(len).map_err(|e| io::Error::new(io::ErrorKind::InvalidInput, e))?;
+
+    buf.clear();
+
+    if reader.take(limit).read_to_end(buf).await? == len {
+        Ok(())
+    } else {
+        Err(io::Error::new(
+            io::ErrorKind::UnexpectedEof,
+            "failed to fill whole buffer",
+        ))
+    }
+}
